@@ -13,6 +13,7 @@ import (
 	"os"
 	"os/exec"
 	"path/filepath"
+	"runtime"
 	"sort"
 	"strconv"
 	"strings"
@@ -713,6 +714,34 @@ func (d *Driver) finish() int {
 	return exit
 }
 
+// caseWatchdog: a single case normally takes milliseconds to seconds. A case that is still
+// running after this limit is examined: if no goroutine with library frames is runnable (all are
+// blocked in sync/channel waits) the step can never complete - a violation (deadlock / leaked
+// latch); otherwise the verdict is inconclusive. Either way the worker gives up (status 77).
+func caseWatchdog() time.Duration {
+	if v := os.Getenv("VERIF_WATCHDOG_S"); v != "" {
+		if n, err := strconv.Atoi(v); err == nil {
+			return time.Duration(n) * time.Second
+		}
+	}
+	return 12 * time.Minute
+}
+
+func caseHung(w *W, idx int) {
+	buf := make([]byte, 8<<20)
+	buf = buf[:runtime.Stack(buf, true)]
+	blocked, active, sample := classifyGoroutines(string(buf))
+	_, last := readProgress(strings.TrimSuffix(w.out, ".json") + ".progress")
+	if blocked > 0 && active == 0 {
+		w.Violate(idx, last, fmt.Sprintf("[hang] case %s never completed (%s): every goroutine inside the library is blocked in a sync/channel wait:\n%s", last, caseWatchdog(), sample), "",
+			map[string]any{"idx": idx, "kind": "hang"})
+	} else {
+		w.Inconclusive(last, fmt.Sprintf("case exceeded %s with %d blocked and %d active library goroutines", caseWatchdog(), blocked, active))
+	}
+	w.flush(false)
+	os.Exit(77)
+}
+
 // ---------------------------------------------------------------------------------------------
 // Worker entry
 
@@ -749,7 +778,9 @@ func workerMain(args []string) int {
 		if idx%nsl != slice || idx < start {
 			continue
 		}
+		wd := time.AfterFunc(caseWatchdog(), func() { caseHung(w, idx) })
 		p.Run(w, phase, idx)
+		wd.Stop()
 		if time.Since(lastFlush) > 2*time.Second {
 			w.flush(false)
 			lastFlush = time.Now()
